@@ -24,6 +24,9 @@
 (*          after the last call of the event                               *)
 (* Event "iso": one side evaluated with the caller dictionary (s1) and     *)
 (* with the block `drop` removed (s0).                                     *)
+(* Event "cycle": 2-5 reactions held in a Reactions container whose        *)
+(* scaled / reversed combination is a net reaction or nothing: the same    *)
+(* combination of their changes equals the net change (HessCycle).         *)
 (* Event "refuse": a reaction WITHOUT a transition state; g = the getters  *)
 (* called with act = True (or asked for the transition state), out = what  *)
 (* each did ("raised" | "value").  A reaction without a transition state   *)
@@ -155,8 +158,23 @@ RefuseClauses(e) ==
    \cup (IF e.kboth THEN Fail(Close(e.kf, Mul(e.kr, e.k), 6), "KeqActRatio") ELSE {})
    \cup Fail(e.kb = e.ka, "CallerKwargsUntouched")
 
+\* ---- Hess cycles: members i with multipliers m[i] (scaled / reversed), combined into a net reaction
+\* (or into nothing for a closed cycle).  vec[i] / netvec: stoichiometric vectors over the species of the
+\* cycle as read back from the reaction objects (products positive); the combination is verified here
+CycleClauses(e) ==
+   LET n == Len(e.m)
+       terms == [i \in 1..n |-> Mul(e.m[i], e.d[i])]
+       scale == {terms[i] : i \in 1..n} \cup {Mul(e.m[i], e.sr[i]) : i \in 1..n}
+                \cup {Mul(e.m[i], e.sp[i]) : i \in 1..n} \cup {e.nr, e.np}
+       Wit(j) == LET w == [i \in 1..n |-> Mul(e.m[i], e.vec[i][j])]
+                 IN CloseIn(SumSeq(w), e.netvec[j], {w[i] : i \in 1..n} \cup {One}, 7)
+   IN Fail(\A j \in 1..Len(e.netvec) : Wit(j), "WITNESS")
+      \cup Fail(CloseIn(SumSeq(terms), e.net, scale, 6), "HessCycle")
+      \cup Fail(e.kb = e.ka, "CallerKwargsUntouched")
+
 Clauses(e) ==
    CASE e.ev = "quant" -> QuantClauses(e)
+     [] e.ev = "cycle" -> CycleClauses(e)
      [] e.ev = "refuse" -> RefuseClauses(e)
      [] e.ev = "iso" -> IsoClauses(e)
      [] OTHER -> {"UnknownEvent"}
